@@ -163,23 +163,37 @@ Qed.
 Lemma radians_0 : radians 0 = 0.
 Proof. unfold radians. unfold Rdiv. ring. Qed.
 
+Lemma Rgtb_0_0 : Rgtb 0 0 = false.
+Proof. apply Rgtb_false. lra. Qed.
+Lemma Rgtb_scal_pos c E : 0 < c -> Rgtb (c * E) 0 = Rgtb E 0.
+Proof.
+  intros Hc. destruct (Rgtb E 0) eqn:H.
+  - apply Rgtb_true in H. apply Rgtb_true. nra.
+  - apply Rgtb_false in H. apply Rgtb_false. nra.
+Qed.
+
 Lemma avz_tmp_zero_energy emf hadf d th thc f : AVZ_tmp 0 0 emf hadf d th thc f = 0.
 Proof.
-  unfold AVZ_tmp. cbv zeta. rewrite (Reqb_refl 0). cbn [negb andb orb].
-  rewrite radians_0, (Reqb_refl 0). cbn [negb andb]. rewrite !Bool.andb_false_r.
-  destruct (Rgtb emf 0); unfold Rdiv; ring.
+  unfold AVZ_tmp. cbv zeta. rewrite (Reqb_refl 0), ?Rgtb_0_0. cbn [negb andb orb].
+  rewrite ?radians_0, ?(Reqb_refl 0). cbn [negb andb]. rewrite ?Bool.andb_false_r.
+  split_ifs; unfold Rdiv; ring.
 Qed.
 
 (* the electromagnetic part, viewed on the cone, is proportional to the shower energy
-   (off the cone the LPM width dThetaEM depends on the energy, so only on-cone linearity holds) *)
-Lemma avz_em_on_cone_linear_in_energy c E hadE emf hadf d thc f :
+   (off the cone the LPM width dThetaEM depends on the energy, so only on-cone linearity holds);
+   the shower is present iff its energy is positive, hence the scale factor must not be negative *)
+Lemma avz_em_on_cone_linear_in_energy c E hadE emf hadf d thc f : 0 <= c ->
   AVZ_em_tmp (c * E) hadE emf hadf d thc thc f = c * AVZ_em_tmp E hadE emf hadf d thc thc f.
 Proof.
-  unfold AVZ_em_tmp. cbv zeta.
-  replace (thc - thc) with 0 by ring.
-  assert (Z0 : forall x, (0 / x) ^ 2 = 0) by (intros; unfold Rdiv; ring).
-  rewrite !Z0, !Rmult_0_r, exp_0.
-  destruct (Rgtb emf 0); unfold Rdiv; ring.
+  intros [Hc | Hc].
+  - unfold AVZ_em_tmp. cbv zeta.
+    replace (thc - thc) with 0 by ring.
+    assert (Z0 : forall x, (0 / x) ^ 2 = 0) by (intros; unfold Rdiv; ring).
+    rewrite !Z0, !Rmult_0_r, exp_0, ?(Rgtb_scal_pos c E Hc).
+    split_ifs; unfold Rdiv; ring.
+  - subst c. rewrite Rmult_0_l, Rmult_0_l.
+    unfold AVZ_em_tmp. cbv zeta. rewrite ?Rgtb_0_0.
+    split_ifs; unfold Rdiv; ring.
 Qed.
 
 (* the generated electromagnetic contribution is  K * sin(theta) * G(theta)  *)
@@ -188,10 +202,10 @@ Definition avz_em_K (E d thc f : R) : R :=
   2.53e-7 * E / 1e3 * f / 1.15e9 / (1 + Rpower (f / 1.15e9) 1.44) / 1e6 / sin thc / d.
 Lemma avz_em_tmp_form E hadE emf hadf d th thc f :
   AVZ_em_tmp E hadE emf hadf d th thc f =
-  if Rgtb emf 0 then avz_em_K E d thc f * sin th * avz_gauss th thc (AVZ_dThetaEM E hadE emf hadf d th thc f) else 0.
+  if Rgtb E 0 then avz_em_K E d thc f * sin th * avz_gauss th thc (AVZ_dThetaEM E hadE emf hadf d th thc f) else 0.
 Proof.
   unfold AVZ_em_tmp, AVZ_dThetaEM, avz_em_K, avz_gauss. cbv zeta.
-  destruct (Rgtb emf 0); [ | reflexivity].
+  destruct (Rgtb E 0); [ | reflexivity].
   unfold Rdiv. ring.
 Qed.
 (* the width of the cone does not depend on the viewing angle *)
